@@ -1,6 +1,7 @@
 package props
 
 import (
+	"encoding/binary"
 	"bytes"
 	"crypto/elliptic"
 	"encoding/asn1"
@@ -297,6 +298,11 @@ func reencSites(root *refmodel.CborItem) []reenc {
 				}
 			}
 		}
+		if (x.Major == 0 || x.Major == 1) && x.Arg < 1<<63 {
+			// the other integer type with the 8-byte argument that a 64-bit two's complement decoder folds back onto the same value
+			// (0 as -2^64: 3b ff ff ff ff ff ff ff ff)
+			sites = append(sites, reenc{Kind: "integer-wraparound", Path: p})
+		}
 		switch x.Major {
 		case 2, 3:
 			// the same octets under the other string type (byte string <-> text string): for an item of the signed
@@ -366,6 +372,11 @@ func applyReenc(root *refmodel.CborItem, r reenc) bool {
 	switch r.Kind {
 	case "nonminimal-head":
 		x.Width = r.Arg
+	case "integer-wraparound":
+		if x.Major > 1 || x.Arg >= 1<<63 {
+			return false
+		}
+		x.Major, x.Arg, x.Width = 1-x.Major, ^x.Arg, 8
 	case "indefinite-length":
 		if x.Indef {
 			return false
@@ -507,6 +518,28 @@ func sigVariants(alg string, sig []byte) map[string][]byte {
 	return res
 }
 
+// sigVariantsEnv adds the layouts in which other signature libraries deliver the same signature: the complete varsig
+// (header, then raw signature), the header after it, a length prefix, and NaCl's combined mode (signature, then the signed bytes).
+func sigVariantsEnv(alg string, sealed []byte) map[string][]byte {
+	p := splitEnvelope(sealed)
+	res := sigVariants(alg, p.Sig)
+	n := mustDecodeCbor(sealed)
+	sp, _ := n.LookupByIndex(1)
+	signed := mustEncodeCbor(sp)
+	cat := func(parts ...[]byte) []byte {
+		var out []byte
+		for _, x := range parts {
+			out = append(out, x...)
+		}
+		return out
+	}
+	res["varsig-header-then-signature"] = cat(p.Header, p.Sig)
+	res["signature-then-varsig-header"] = cat(p.Sig, p.Header)
+	res["length-prefixed-signature"] = cat(binary.AppendUvarint(nil, uint64(len(p.Sig))), p.Sig)
+	res["signature-then-signed-bytes"] = cat(p.Sig, signed)
+	return res
+}
+
 func reverse(b []byte) []byte {
 	r := make([]byte, len(b))
 	for i := range b {
@@ -611,7 +644,7 @@ func c08CanonSub() *engine.Sub {
 	return &engine.Sub{
 		Name:   "canonical-bytes",
 		Repeat: true,
-		Rule:   "sealed base tokens are parsed with the harness' own CBOR item parser; every single (quick) / every pair (thorough) of data-preserving re-encoding sites is applied: non-minimal head widths, indefinite lengths, chunked strings, map key permutations, narrower floats, undefined for null, byte string <-> text string with the same octets (incl. the signature item), spurious tags, extra outer element, trailing bytes; plus key-less signature re-encodings (ECDSA s -> n-s, DER variants, RSA leading zero added, and - on RSA tokens whose nonce was searched until the signature starts with a zero octet - stripped; Ed25519 s+L). A decoder must reject each re-encoding (two accepted byte strings with the same signed content would have different CIDs); non-trivial = re-encoded bytes differ from the original",
+		Rule:   "sealed base tokens are parsed with the harness' own CBOR item parser; every single (quick) / every pair (thorough) of data-preserving re-encoding sites is applied: non-minimal head widths, indefinite lengths, chunked strings, map key permutations, narrower floats, undefined for null, byte string <-> text string with the same octets (incl. the signature item), spurious tags, extra outer element, trailing bytes; integers as the other integer type with the 8-byte argument that wraps around to the same value; plus key-less signature re-encodings (the complete varsig - header then signature -, header after the signature, length-prefixed, signature followed by the signed bytes; ECDSA s -> n-s, DER variants, RSA leading zero added, and - on RSA tokens whose nonce was searched until the signature starts with a zero octet - stripped; Ed25519 s+L). A decoder must reject each re-encoding (two accepted byte strings with the same signed content would have different CIDs); non-trivial = re-encoded bytes differ from the original",
 		Bound: func(t string) string {
 			if t == "thorough" {
 				return "3 base tokens x 5 algorithms; all single sites and all pairs of sites of distinct kinds on the Ed25519 tokens"
@@ -647,7 +680,7 @@ func c08CanonSub() *engine.Sub {
 							return
 						}
 					}
-					for name := range sigVariants(alg, splitEnvelope(orig).Sig) {
+					for name := range sigVariantsEnv(alg, orig) {
 						if !emit(&c08Case{Base: base, Alg: alg, SigVar: name, Orig: oh}) {
 							return
 						}
@@ -679,7 +712,8 @@ func c08CanonSub() *engine.Sub {
 			cls := ""
 			if cs.SigVar != "" {
 				p := splitEnvelope(orig)
-				v, ok := sigVariants(cs.Alg, p.Sig)[cs.SigVar]
+				_ = p
+				v, ok := sigVariantsEnv(cs.Alg, orig)[cs.SigVar]
 				if !ok {
 					ctx.Outcome("not-applicable")
 					return
@@ -688,6 +722,10 @@ func c08CanonSub() *engine.Sub {
 				sp, _ := n.LookupByIndex(1)
 				mutated = assembleWithSig(v, sp)
 				cls = "sig/" + cs.SigVar
+				if (cs.SigVar == "signature-then-varsig-header" || cs.SigVar == "signature-then-signed-bytes") && (cs.Alg == "p256" || cs.Alg == "p384" || cs.Alg == "p521") {
+					// for the NIST curves this is the recorded defect "bytes after the DER signature are ignored" with other trailing bytes
+					cls = "sig/der-trailing-byte"
+				}
 			} else {
 				var ok bool
 				mutated, ok = encodeReenc(orig, cs.Reencs)
